@@ -1,9 +1,15 @@
 #!/bin/bash
-# The repository's own test suite with the verif guard OFF (no -tags verif), as in /root/.vp/BASELINE.json.
+# The repository's own test suite with the verif guard OFF (no -tags verif), exactly as in /root/.vp/BASELINE.json.
+# Usage: baseline_off.sh [outfile]   (go test -json stream; compare with scripts/baseline_compare.py)
 export GOFLAGS=-mod=mod GOPROXY=off
 unset GOTOOLCHAIN GOSUMDB
-rc=0
-for m in . ./api ./lib/datastructures ./lib/httpmachinery ./lib/kind ./lib/logrusr ./lib/std; do
-  (cd /repo/$m && go test -json -vet=off -count=1 -timeout 25m ./...) || rc=1
+out=${1:-/dev/stdout}
+mods=". ./api ./lib/datastructures ./lib/httpmachinery ./lib/kind ./lib/logrusr ./lib/std"
+[ -f /w/out/gomods.txt ] && mods=$(cat /w/out/gomods.txt)
+: > "$out" 2>/dev/null
+for m in $mods; do
+  MF=-mod=mod
+  if [ -f /w/out/goenv.sh ]; then MF=$(cd /repo/$m && . /w/out/goenv.sh && gomodflag); fi
+  (cd /repo/$m && go test $MF -json -vet=off -count=1 -timeout 25m ./...) >> "$out"
 done
-exit $rc
+exit 0
